@@ -21,7 +21,7 @@ GEN = os.path.join(VERIF, "coq", "gen", "OwnGraph.v")
 WORK = os.path.join(vlib.BUILD, "c17")
 VARIANTS = ["ipc", "local", "ipc_threadsafe", "local_threadsafe"]
 NSLOTS = {("pubsub", 1): 6, ("pubsub", 2): 8, ("event", 1): 4, ("event", 2): 6, ("reqres", 1): 7, ("reqres", 2): 8,
-          ("blackboard", 1): 6, ("blackboard", 2): 8, ("reqres2", 1): 9, ("rrovf", 1): 8}
+          ("blackboard", 1): 6, ("blackboard", 2): 8, ("reqres2", 1): 9, ("rrovf", 1): 8, ("ps2", 1): 7}
 
 # Candidate defects of /repo found by this check and reported to the lead, who decides between a
 # fix: commit in /repo and an entry in known_findings.json (matched by the same key).  Until then
@@ -172,7 +172,7 @@ def jobs_for(ctx, exe):
     plan = {"exhaustive": [], "sampled": [], "regressions": []}
     # minimal orders of the findings so far run on every tier
     for v in ("ipc", "local"):
-        for p, nn, order in (("rrovf", 1, "3,4,0,1,2,5,6,7"), ("reqres2", 1, "6,3,8,7,0,1,2,4,5"), ("reqres2", 1, "3,8,7,0,1,2,4,5,6"), ("pubsub", 1, "3,0,1,2,4,5"), ("event", 1, "0,1,2,3")):
+        for p, nn, order in (("ps2", 1, "2,3,0,1,4,5,6"), ("rrovf", 1, "3,4,0,1,2,5,6,7"), ("reqres2", 1, "6,3,8,7,0,1,2,4,5"), ("reqres2", 1, "3,8,7,0,1,2,4,5,6"), ("pubsub", 1, "3,0,1,2,4,5"), ("event", 1, "0,1,2,3")):
             jobs.append(("perm:%s:%s:%s" % (v, p, order), [exe, "perm", v, p, str(nn), order]))
             plan["regressions"].append("%s %s %s" % (v, p, order))
     # request-response with two requests of one client in flight: the server side (server, active_a, active_b) is dropped
@@ -187,6 +187,10 @@ def jobs_for(ctx, exe):
             fam(v, 1, 10, "rrovf")
             rnd(v, "rrovf", 1, 1, 20)
             plan["sampled"] += ["%s rrovf servers-first: 2 x 10 of 720, 20 of 8!" % v]
+            # two publishers, a Sample of each held, subscriber_expired_connection_buffer = 1 < max borrowed samples: publishers first
+            fam(v, 1, 8 if v in ("ipc", "local") else 4, "ps2")
+            rnd(v, "ps2", 1, 1, 12)
+            plan["sampled"] += ["%s ps2 publishers-first: 2 x %d of 120, 12 of 7!" % (v, 8 if v in ("ipc", "local") else 4)]
     else:
         for v in VARIANTS:
             if v in ("ipc", "local"):
@@ -199,6 +203,9 @@ def jobs_for(ctx, exe):
             plan["sampled"].append("%s reqres2: 2000 of 9!" % v)
             fam(v, 8, 0 if v in ("ipc", "local") else 60, "rrovf")
             rnd(v, "rrovf", 1, 4, 250)
+            fam(v, 4, 0, "ps2")
+            rnd(v, "ps2", 1, 4, 250)
+            plan["exhaustive"].append("%s ps2 publishers-first: 2 x 120; 1000 of 7!" % v)
             plan["exhaustive" if v in ("ipc", "local") else "sampled"].append("%s rrovf servers-first: 2 x %s; 1000 of 8!" % (v, "720" if v in ("ipc", "local") else "60"))
     if not th:
         for v in ("ipc", "local"):
@@ -307,7 +314,12 @@ def run(ctx):
                 "received (each live active request sends one per round, after the pending responses drained), zero-copy payloads are first read "
                 "in a forked child so that an unmapped segment is reported as payload-unreadable-signal-11; family rrovf (one client, two servers, "
                 "client_expired_connection_buffer = 1, the second server's connection holds a borrowed Response: the borrowed Response must stay "
-                "readable when both servers are gone; no model instance, property-side checks only); writer/reader: fresh entry "
+                "readable when both servers are gone; no model instance, property-side checks only); family ps2 (two publishers, the subscriber "
+                "holds a Sample of each, subscriber_expired_connection_buffer = 1 < max borrowed samples 3, publishers dropped first: the subscriber "
+                "must keep receiving and both samples must stay readable; no model instance); the two known findings are keyed only when the driver "
+                "has verified their preconditions on the drop order (F2: the probed Sample's own subscriber was dropped and its publisher was probed "
+                "at or after that drop and the new value is one the publisher's probe writes; node directory: the number of left directories equals "
+                "the number of nodes whose last-dropped holder is a port-side object), the same symptom otherwise is an unkeyed VIOLATION; writer/reader: fresh entry "
                 "handle on another key / same key; entry handles: update / read-back; node: Node::list; service handle: nodes() + dynamic "
                 "config), panics caught per drop/smoke; at the end leftovers (anything but nodes/, services/, *.global_mgmt), Node::list / "
                 "Service::list must be empty and node + service are re-created under the same names with different settings and used once. "
